@@ -335,9 +335,22 @@ func checkC16(ctx *core.Ctx, rep *core.Report) {
 		}
 		b := t.build(certgen.RSASPKI(n, e))
 		rep.Inc("transitions")
+		alone := map[string]bool{}
 		for _, v := range c16Judge(b, n, e, reg, rep, t.name, applic) {
+			alone[v[0]] = true
 			rep.Violate(v[0], v[1]+" [template "+t.name+" N="+nd+" e="+e.String()+"]", map[string]interface{}{
 				"kind": "cert", "der_hex": hex.EncodeToString(b), "n_hex": n.Text(16), "e": e.String(), "template": t.name})
+		}
+		// the same key inside ONE run of the whole registry: the key-quality lints then run in registration order, with
+		// every other lint before and between them on the same parsed key (a lint that touches the key changes what the
+		// next one measures)
+		rep.Inc("full_registry_runs")
+		for _, v := range c16Judge(b, n, e, lint.GlobalRegistry(), nil, t.name, nil) {
+			if alone[v[0]] {
+				continue
+			}
+			rep.Violate(v[0]+"|in a full run", v[1]+" — in one run of the whole registry (correct when only the key-quality lints run) [template "+t.name+" N="+nd+" e="+e.String()+"]", map[string]interface{}{
+				"kind": "cert", "der_hex": hex.EncodeToString(b), "n_hex": n.Text(16), "e": e.String(), "template": t.name, "registry": "global"})
 		}
 		rep.Sample(3, map[string]interface{}{"template": t.name, "N": nd, "e": e.String()})
 	}
@@ -523,6 +536,9 @@ func replayC16(rp map[string]interface{}) (string, error) {
 	reg, _, err := rsaRegistry()
 	if err != nil {
 		return "", err
+	}
+	if r, _ := rp["registry"].(string); r == "global" {
+		reg = lint.GlobalRegistry()
 	}
 	if bad := c16Judge(b, n, e, reg, nil, "", nil); len(bad) > 0 {
 		return bad[0][0] + ": " + bad[0][1], nil
